@@ -819,7 +819,8 @@ getfn (int writeflg)
     {
       P_NOFNAME = TRUE;
       file[0] = '/';
-      strcpy (file + 1, P_FNAME);
+      strncpy (file + 1, P_FNAME, sizeof (file) - 2);	/* P_FNAME may be MAXFNAME - 1 long */
+      file[sizeof (file) - 1] = '\0';
     }
   else
     {
@@ -828,7 +829,14 @@ getfn (int writeflg)
 
       cp = file;
       while (*inptr && *inptr != NL && *inptr != SP && *inptr != HT)
-        *cp++ = *inptr++;
+        {
+          if (cp >= file + sizeof (file) - 1)
+            {
+              ED_OUTPUT (ED_DEST, "File name too long.\n");
+              return (NULL);
+            }
+          *cp++ = *inptr++;
+        }
       *cp = '\0';
 
     }
